@@ -29,17 +29,17 @@ DAYS = [0, 28, 29, 30, 27, 0, 29, 30]
 def _kind(chunk, off):
     ev = chunk[off - 1]
     prev = chunk[off - 2] if off >= 2 else ev
-    ps = prev["subn"]
     if ev["ev"] == "buy":
+        ps = prev["cs"][ev["c"]]["subn"]
         return "buy:" + ("fail" if not ev["ok"] else "new" if not ps["on"] else "upgrade" if ps["pi"] != ev["p"] else "extend")
     if ev["ev"] == "adv":
-        return "adv:" + ("fail" if not ev["ok"] else "replace" if ps["fut"]["on"] else "new")
+        pc = prev["cs"][ev["c"]]["subn"]
+        if not ev["ok"]:
+            return "adv:fail"
+        return "adv:" + ("replace" if pc["fut"]["on"] else "new") + (":after-upgrade-same-epoch" if pc["blk"] > prev["h"] else "")
     if ev["ev"] == "month":
-        if not ps["on"]:
-            return "month:nosub"
-        if ps["left"] > 1:
-            return "month:continue"
-        return "month:" + ("activate-future" if ps["fut"]["on"] else "renew" if ps["auto"] != "none" else "expire")
+        ks = sorted({sl.month_kind(prev, ev, c) for c in sl.CONS if sl.fired(prev, ev, c)})
+        return "month:" + "+".join(ks)
     return ev["ev"]
 
 
@@ -65,10 +65,10 @@ def _check(ctx, behs, days, tag, drift=True):
 
 def _report(ctx, f):
     ev = f["event"]
-    what = ("%s violated at step %d (%s, start day offset %d): sub(next epoch)=%s left=%s cuL/cuT=%s/%s nproj=%s bal=%s "
-            "ok=%s err=%s panic=%s %s" % (f["inv"], f["off"] - 1, ev["ev"], f["day"], ev["subn"]["on"], ev["subn"]["left"],
-                                         ev["subn"]["cuL"], ev["subn"]["cuT"], ev["nproj"], ev["bal"], ev["ok"], ev["err"],
-                                         ev["panic"], ev["pmsg"][:160]))
+    subs = {c: {k: ev["cs"][c]["subn"][k] for k in ("on", "left", "cuL", "cuT")} | {"fut": ev["cs"][c]["subn"]["fut"]["d"], "nproj": ev["cs"][c]["nproj"]}
+            for c in sl.CONS}
+    what = ("%s violated at step %d (%s %s, start day offset %d): next-epoch view %s bal=%s ok=%s err=%s panic=%s %s" % (
+        f["inv"], f["off"] - 1, ev["ev"], ev.get("c", ""), f["day"], subs, ev["bal"], ev["ok"], ev["err"], ev["panic"], ev["pmsg"][:160]))
     ctx.violation(f["sig"], what, {"behaviours": [f["beh"]], "days": [f["day"]]})
 
 
